@@ -83,6 +83,11 @@ fn main() {
             }
             std::process::exit(checks::replay(&args[2]));
         }
+        "chainfind" => {
+            let n = args.get(2).and_then(|x| x.parse().ok()).unwrap_or(1000);
+            let d = args.get(3).and_then(|x| x.parse().ok()).unwrap_or(16);
+            e2_oracles::chainfind(n, d);
+        }
         _ => usage(),
     }
 }
